@@ -92,3 +92,22 @@ func (w *World) Close() {
 		w.Disk.Unmount()
 	}
 }
+
+// ShareHandle makes every session of the world (and every engine built for it) use ONE store
+// handle, as a gateway that keeps a single connection or directory handle does. Call it after
+// the backend has been installed.
+func (w *World) ShareHandle() {
+	inner := w.NewStore
+	var h db.Db
+	w.NewStore = func(s *Sess) (db.Db, error) {
+		if h != nil {
+			return h, nil
+		}
+		st, err := inner(s)
+		if err != nil {
+			return nil, err
+		}
+		h = st
+		return h, nil
+	}
+}
